@@ -74,6 +74,7 @@ func Load(repo string, extraEnv ...string) (*World, error) {
 	}
 	w := &World{RepoDir: repo, Fset: fset, ByPath: map[string]*packages.Package{}, Env: cfg.Env,
 		declOf: map[*types.Func]*ast.FuncDecl{}, fileOf: map[*ast.FuncDecl]*packages.Package{}}
+	curWorld = w
 	var errs []string
 	packages.Visit(pkgs, nil, func(p *packages.Package) {
 		w.ByPath[p.PkgPath] = p
@@ -419,3 +420,49 @@ func (w *World) countFuncs() int {
 }
 
 type pkgAlias = packages.Package
+
+// curWorld is the world loaded last (one per process): analyses that have no World parameter use it to ask
+// whole-module questions (frozenGlobal).
+var curWorld *World
+var frozenCache = map[*ssa.Global]bool{}
+
+// frozenGlobal: a package-level variable that no function of the module other than a package initialiser stores
+// to and whose address does not escape into a call or another store: two loads of it yield the same value.
+func frozenGlobal(g *ssa.Global) bool {
+	if v, ok := frozenCache[g]; ok {
+		return v
+	}
+	res := curWorld != nil
+	if curWorld != nil {
+		for f := range allModuleFuncs(curWorld, curWorld.SSA()) {
+			isInit := f.Name() == "init" || strings.HasPrefix(f.Name(), "init#")
+			allInstrs(f, func(in ssa.Instruction) {
+				switch x := in.(type) {
+				case *ssa.Store:
+					if x.Addr == ssa.Value(g) && !isInit {
+						res = false
+					}
+					if x.Val == ssa.Value(g) {
+						res = false
+					}
+				case ssa.CallInstruction:
+					for _, a := range x.Common().Args {
+						if a == ssa.Value(g) {
+							res = false
+						}
+					}
+				case *ssa.MakeClosure, *ssa.MakeInterface, *ssa.Phi, *ssa.Return:
+					for _, op := range in.Operands(nil) {
+						if *op == ssa.Value(g) {
+							res = false
+						}
+					}
+				case *ssa.IndexAddr:
+					// &g[i] of an array-typed global followed by a store: element writes do not change len
+				}
+			})
+		}
+	}
+	frozenCache[g] = res
+	return res
+}
